@@ -336,3 +336,38 @@ Theorem compile_input_transparent_stmt (r : tail_count) (P : params) (texts : N 
   MrFaithful l mr full -> HeadFaithful l full -> WindowSpec (p_limit P) l a window ->
   compile_fast r P texts ks mr full window l a = compile P texts l a.
 Proof. intros R S W Fm Fh Ws. exact (compile_input_transparent r P texts l a R S W ks mr full window Fm Fh Ws). Qed.
+
+(* the healthy seek window (builder compile's mr_window over the projection, at the thread's cut) meets WindowSpec: the
+   admissibility argument of c08_window_path_agrees, stated for the loader's parameter *)
+Definition healthy_window (limit : nat) (l : log) (a : N) : option (log * N) :=
+  option_map (fun from => (mr_window limit l from, from)) (cut_point l a).
+
+Lemma healthy_window_spec limit l a : WindowSpec limit l a (healthy_window limit l a).
+Proof.
+  intros evs from H. unfold healthy_window in H. destruct (cut_point l a) as [fr|] eqn:C; [|discriminate].
+  cbn [option_map] in H. inversion H; subst evs from. clear H. split; [reflexivity|]. exists mr_keep.
+  split; [auto|]. unfold mr_window.
+  destruct (window_rev_spec fr limit (rev (filter mr_keep l)) 0 []) as (tk & rs & E & Wn & Ct).
+  rewrite Wn, app_nil_r. exists (upto fr l), (rev rs). repeat split; [now right| |].
+  - assert (Ef : filter mr_keep (upto fr l) = rev (filter (fun f => fseq f <=? fr) (rev (filter mr_keep l)))).
+    { rewrite filter_rev', rev_involutive. unfold upto.
+      clear. induction l as [|f r IH]; [reflexivity|]. cbn [filter].
+      destruct (fseq f <=? fr) eqn:A, (mr_keep f) eqn:B; cbn [filter]; rewrite ?A, ?B; rewrite ?IH; reflexivity. }
+    rewrite Ef, E, rev_app_distr. reflexivity.
+  - destruct Ct as [->|Ct]; [now left|right].
+    rewrite count_msgs_upto_all.
+    + rewrite filter_is_msg_rev. cbn in Ct. exact Ct.
+    + intros f F. apply in_rev in F.
+      assert (In f (filter (fun g => fseq g <=? fr) (rev (filter mr_keep l)))) by (rewrite E; apply in_or_app; now left).
+      apply filter_In in H. tauto.
+Qed.
+
+Theorem compile_input_transparent_healthy_window (r : tail_count) (P : params) (texts : N -> N) (l : log) (a : N)
+        (ks : list nat) (mr full : cfile) :
+  tail_count_sound r = true -> incr l -> wf_refs l = true ->
+  MrFaithful l mr full -> HeadFaithful l full ->
+  compile_fast r P texts ks mr full (healthy_window (p_limit P) l a) l a = compile P texts l a.
+Proof.
+  intros R S W Fm Fh.
+  exact (compile_input_transparent r P texts l a R S W ks mr full _ Fm Fh (healthy_window_spec (p_limit P) l a)).
+Qed.
